@@ -37,6 +37,9 @@ type Expr struct {
 	Args []Expr `json:"args,omitempty"` // operands
 	Lit  string `json:"lit,omitempty"`  // for string literals: the spelling (quote form) chosen
 	Fmt  string `json:"fmt,omitempty"`  // Sprintf format
+	// Cmt: a // comment is written where the spelling allows one - after the operator of a binary
+	// expression spread over lines, or at the end of a raw Go statement ({{ v := e // c }}).
+	Cmt bool `json:"cmt,omitempty"`
 }
 
 // String expression kinds: "var" (Str = name), "strlit" (Str = value, Lit = spelling), "concat",
